@@ -221,9 +221,14 @@ def _reset_post(s):
 def _reset_reprimes(s):
     sim = s.self._sim
     names = _names(G("trace") if has_G("trace") else [])
-    ok = "Simulation._replay_pre_run_events" in names
+    prim = [n for n in names if n in ("Source.start", "FaultSchedule.start", "Simulation._replay_pre_run_events")]
+    # creation order is tie order (C01): the events must be re-created in the order of the first run - what the
+    # constructor primes (sources, probes, then the fault schedule) BEFORE what the user scheduled afterwards
+    ok = prim.count("Simulation._replay_pre_run_events") == 1 and prim[-1] == "Simulation._replay_pre_run_events"
     if s.old(sim)._fault_schedule is not None:
-        ok = ok and "FaultSchedule.start" in names
+        ok = ok and prim.count("FaultSchedule.start") == 1 and prim[-2] == "FaultSchedule.start"
+    else:
+        ok = ok and "FaultSchedule.start" not in prim
     return ok
 
 
